@@ -5,8 +5,8 @@ import vlib
 PROPS_MODULE = "Q1t.Props.C06"
 
 # class tag of the spec mode -> id of the (proposed) entry in known_findings.json
+# (finding C06-loop0-nonclaiming-accepts is fixed: a non-claiming gate that accepts is a violation, whatever its shape)
 KNOWN_CLASSES = {
-    "nonclaiming-accepts-loop0": "C06-loop0-nonclaiming-accepts",
 }
 
 
@@ -78,7 +78,7 @@ SPEC = {
     "tables": ["Conj"],
     "props_module": PROPS_MODULE,
     "required": ["prim_conj_exact", "claiming_is_clifford", "param_prims_do_not_claim", "nonclaiming_refuse",
-                 "named_wrappers_keep_defaults", "nonclaiming_refuse_term_partial", "loop0_nonclaiming_accepts",
+                 "named_wrappers_keep_defaults", "nonclaiming_refuse_term", "loop0_nonclaiming_refuses",
                  "is_stabilizer_conjunction", "routing_sound", "conj_exact_of_term_general", "prims_exact_generated",
                  "spec_unitary_of_term", "conj_exact_of_term", "claiming_term_is_clifford", "conj_exact_kron_own_matrix",
                  "identity_skips_arity_check"],
